@@ -632,6 +632,30 @@ def repetition_stream(ctx, plans, table, n):
         plans.append(pl)
 
 
+def perpetual_stream(ctx, plans, table, n):
+    """C10 below the root: positions in which the side to move is lost on material but has a perpetual check; the cycle has been
+    played once (game history), so completing it again reaches a third occurrence at ply 4, after the same position was searched
+    as the root of the earlier iterations.  Expected score = the exact path-dependent minimax value of the specification
+    `RepSpec.repSearch`, stored in the corpus when it was built (tools/build_perpetual_corpus.py) and re-computed in the thorough
+    tier."""
+    ents = [l.split(' | ') for l in corpus('perpetuals.txt')]
+    ents = ctx.rng.sample(ents, min(n, len(ents)))
+    for fen, cyc, depth, want, plain in ents:
+        ms = cyc.split(' ')
+        idx = table.add(fen, ms)
+        pl = Plan('perpetual-check-corpus')
+        pl.nomodel = True
+        pl.pos(fen, ms, idx)
+        pl.go(['depth', depth])
+        pl.meta[-1]['expect_score'] = want
+        plans.append(pl)
+        if ctx.tier == 'thorough':
+            a = core.run_model(['rep-search %s %s %s' % (fen, depth, cyc)])[0]
+            if a.split(' ')[0] != want:
+                raise core.Broken('perpetual-corpus', 'corpus entry %s: specification value %s, stored %s' % (fen, a, want))
+    ctx.notes.append('perpetual-check corpus positions searched at depth 4 (repetition rule decides the value): %d' % len(ents))
+
+
 def gen_int(name):
     import re as _re
     txt = open(os.path.join(core.LEAN, 'Inkayaku', 'Gen', 'Eval.lean')).read()
@@ -1053,6 +1077,161 @@ def run_binary_session(binary, script, timeout=60):
     return banner, lines, per_go, problems
 
 
+def app_project(line):
+    """projection of one stdout line shared with the model's `app` op (Model/AppOps.lean `projectLine`): run-dependent numbers
+    (time, nodes, nps, hashfull, debug string) are dropped from info lines; poll infos collapse to `info poll`"""
+    f = line.split(' ')
+    if f[0] != 'info':
+        return line
+    rest, kept, i = f[1:], [], 0
+    while i < len(rest):
+        if rest[i] == 'string':
+            break
+        if i + 1 >= len(rest):
+            kept.append(rest[i])
+            break
+        if rest[i] in ('time', 'nodes', 'hashfull', 'nps'):
+            i += 2
+            continue
+        kept.append(rest[i])
+        i += 1
+    return 'info ' + ' '.join(kept) if kept[:1] == ['depth'] else 'info poll'
+
+
+def run_app_script(binary, lines, kinds, go_timeout=60):
+    """the real engine_app process under the SEQUENTIAL schedule of Model/App.lean: one stdin line at a time, the next one only
+    after the previous command has been processed.  `kinds[i]` = what the model's parser makes of line i (`go`, `uci`, `isready`,
+    `register`, …, `err`): after a go line the bestmove is awaited, after uci / isready / register the final answer line; other
+    lines print nothing and need no wait (the process reads its lines in order).  Returns the projected stdout lines (banner
+    first) + the exit status element."""
+    import threading, queue
+    p = subprocess.Popen([binary], stdin=subprocess.PIPE, stdout=subprocess.PIPE, stderr=subprocess.DEVNULL)
+    q = queue.Queue()
+
+    def reader():
+        for l in p.stdout:
+            q.put(l.decode('utf-8', 'replace').rstrip('\n'))
+        q.put(None)
+    threading.Thread(target=reader, daemon=True).start()
+
+    def get(timeout):
+        try:
+            return q.get(timeout=timeout)
+        except queue.Empty:
+            return ''
+    out = [get(10)]
+    last = {'go': 'bestmove', 'uci': 'uciok', 'isready': 'readyok', 'register': 'registration ok'}
+    dead = False
+    for l, kind in zip(lines, kinds):
+        try:
+            p.stdin.write(l.encode('utf-8') + b'\n')
+            p.stdin.flush()
+        except (BrokenPipeError, OSError):
+            break
+        want = last.get(kind)
+        while want:
+            x = get(go_timeout if kind == 'go' else 5)
+            if x is None:
+                dead = True
+                break
+            if x == '':
+                break           # nothing came: the comparison with the model will show it
+            out.append(x)
+            if x.startswith(want):
+                break
+        if dead or kind in ('quit', 'setoption'):
+            break
+    try:
+        p.stdin.close()
+    except OSError:
+        pass
+    # quit / panic end the process; otherwise it keeps reading (and spins on the empty read at end of input: Model/App `atEof`)
+    try:
+        rc = p.wait(timeout=5 if (dead or 'quit' in kinds or 'setoption' in kinds) else 0.3)
+    except subprocess.TimeoutExpired:
+        rc = None
+        p.kill()
+    status = 'exit:none' if rc is None else {0: 'exit:quit', 101: 'exit:panic'}.get(rc, 'exit:%d' % rc)
+    time.sleep(0.02)
+    while not q.empty():
+        x = q.get()
+        if x:
+            out.append(x)
+    return ' | '.join([app_project(o) for o in out if o is not None] + [status])
+
+
+APP_FIXED = [
+    ['uci', 'isready', 'position startpos moves e2e4', 'go depth 2', 'quit'],
+    ['', '   ', 'foo', 'go depth x', 'position fen 8/8 w', 'isready', 'register later', 'register name a code b', 'position startpos moves e2e4',
+     'position startpos moves e2e5', 'debug on', 'go depth 1', 'stop', 'ponderhit', 'quit', 'isready'],
+    ['isready', 'setoption name Hash value 3', 'isready'], ['setoption name foo'], ['go depth 1'],
+    ['position startpos moves f2f3 e7e5 g2g4 d8h4', 'go depth 2', 'go depth 1'],
+    ['go depth 3', 'ucinewgame', 'position startpos moves b1c3 b8c6', 'go depth 3', 'debug on', 'go depth 2', 'debug off', 'go depth 2'],
+    ['position fen 7k/5Q2/6K1/8/8/8/8/8 b - - 0 1', 'go depth 3', 'position fen 7k/5Q2/6K1/8/8/8/8/8 w - - 0 1 moves f7f8', 'go depth 2', 'go depth 0'],
+    ['position fen k7/8/2K5/8/8/8/8/7R w - - 0 1', 'go depth 4 searchmoves h1h8 c6b6', 'go depth 2 nodes 5 mate 3'],
+    ['position fen r3k3/1P6/8/3pP3/8/8/8/4K2R w Kq d6 0 2', 'go depth 3', 'position fen startpos', 'go depth 1', 'position startpos moves', 'go depth 1'],
+    ['debug', 'debug on x', 'go depth 1 depth 2', 'go depth 1', 'quit now', 'isready'],
+]
+
+
+def app_sessions(ctx, n):
+    """C16 end to end: the real process and the process model (Model/App.lean, theorems Props/C16App.lean) are given the same
+    stdin scripts under the sequential schedule; their projected stdout streams and exit status must be equal, and every real
+    line after the banner must be a valid engine-to-GUI message"""
+    binary = build_engine_binary()
+    gs = games(ctx, n, 16)
+    scripts = [list(x) for x in APP_FIXED]
+    junk = ['', 'xyzzy', 'go depth', 'position', 'position fen', 'debug maybe', 'isready now', 'uci', 'isready', 'ucinewgame', 'stop', 'ponderhit',
+            'register later', 'go  depth   1', '\tisready', 'position startpos moves e2e4 e2e4', 'go depth 1 searchmoves a1a1', 'Go depth 1']
+    for g in gs:
+        root, moves = g[0], g[1:]
+        npieces = sum(1 for ch in root.split('_')[0] if ch.isalpha())
+        sc = []
+        if ctx.rng.chance(1, 3):
+            sc.append('uci')
+        k = 0
+        while k <= len(moves) and len(sc) < 12:
+            if ctx.rng.chance(1, 4):
+                sc.append(ctx.rng.pick(junk))
+            if ctx.rng.chance(1, 6):
+                sc.append(ctx.rng.pick(['debug on', 'debug off', 'ucinewgame']))
+            pos = 'position ' + ('startpos' if root == START else 'fen ' + root.replace('_', ' '))
+            if k:
+                pos += ' moves ' + ' '.join(moves[:k])
+            sc.append(pos)
+            d = ctx.rng.pick([1, 2, 2, 3]) if npieces <= 12 else ctx.rng.pick([1, 1, 2])
+            sc.append('go depth %d' % d)
+            k += ctx.rng.pick([1, 2, 3])
+        sc.append(ctx.rng.pick(['quit', 'quit', 'isready', 'setoption name Hash value 1']))
+        scripts.append(sc)
+    reqs = ['app status ' + ' '.join(core.hex_token(l) for l in sc) for sc in scripts]
+    model = core.run_model(reqs)
+    flat = [l for sc in scripts for l in sc]
+    parsed = iter(core.run_model(['uciparse ' + core.hex_token(l) for l in flat]))
+
+    def kind_of(a):
+        if not a.startswith('ok '):
+            return 'err'
+        k = a.split(' ')[1]
+        return 'register' if k == 'register' else k
+    vs = []
+    nlines = 0
+    for sc, req, m in zip(scripts, reqs, model):
+        kinds = [kind_of(next(parsed)) for _ in sc]
+        r = run_app_script(binary, sc, kinds)
+        lines = r.split(' | ')
+        nlines += len(lines)
+        bad = [l for l in lines[1:-1] if not UCI_OUT.match(l.replace('info poll', 'info nodes 1'))]
+        if bad:
+            vs.append({'kind': 'property', 'stream': 'engine-process', 'op': 'app', 'input': req, 'impl_output': r[:600], 'model_output': m[:600],
+                       'why': 'the engine process wrote a line that is not a valid UCI engine-to-GUI message: %r' % bad[0]})
+        elif r != m:
+            vs.append({'kind': 'correspondence', 'stream': 'engine-process', 'op': 'app', 'input': req, 'impl_output': r[:900], 'model_output': m[:900],
+                       'why': 'process model (Model/App.lean) and the real engine_app binary disagree on the projected stdout stream of a sequential script: ' + ' / '.join(sc)[:300]})
+    ctx.notes.append('real engine_app process vs process model: %d scripts, %d stdout lines compared' % (len(scripts), nlines))
+    return vs
+
+
 def binary_cases(ctx, nsessions):
     """sessions against the real engine_app binary; returns violations + stats (not line-protocol cases)"""
     binary = build_engine_binary()
@@ -1183,17 +1362,19 @@ def register(PROPS):
                             lambda c, pl, t: pending_stream(c, pl, t, c.scale(30, 500))],
                            binary_sessions=lambda c: c.scale(25, 600))
     c16all = lambda ctx: c16c(ctx) + console_cases(ctx, ctx.scale(1500, 40000))
-    c16post = lambda ctx, cs, impl: c16p(ctx, cs, impl) + console_post(ctx, cs, impl)
-    PROPS['C16'] = dict(modules=['Inkayaku.Props.C16', 'Inkayaku.Props.C16Console', 'Inkayaku.Props.C16Pv', 'Inkayaku.Props.C16Wf'],
+    c16post = lambda ctx, cs, impl: c16p(ctx, cs, impl) + console_post(ctx, cs, impl) + app_sessions(ctx, ctx.scale(30, 600))
+    PROPS['C16'] = dict(modules=['Inkayaku.Props.C16', 'Inkayaku.Props.C16Console', 'Inkayaku.Props.C16Pv', 'Inkayaku.Props.C16Wf', 'Inkayaku.Props.C16App'],
                         theorems=['Inkayaku.C16.' + n for n in 'info_depth_mono info_nodes_mono info_time_mono info_time_is_clock bestmove_is_pv0_ponder_is_pv1 null_bestmove_no_ponder'.split()]
                         + ['Inkayaku.C16Console.' + n for n in 'render_accepts render_single_line empty_pv_rejected'.split()]
                         + ['Inkayaku.C16Pv.' + n for n in 'pv_legal_line pv_legal_line_rules mate_pv'.split()]
-                        + ['Inkayaku.C16Wf.' + n for n in 'engine_out_news engine_out_wf engine_pv_nonempty engine_moves_ok engine_lines_accepted engine_lines_single'.split()],
+                        + ['Inkayaku.C16Wf.' + n for n in 'engine_out_news engine_out_wf engine_pv_nonempty engine_moves_ok engine_lines_accepted engine_lines_single'.split()]
+                        + ['Inkayaku.C16App.' + n for n in 'app_lines_accepted app_one_bestmove_per_go app_parse_error_silent app_isready app_go_stream app_position_illegal_keeps app_setoption_panics app_panicked_iff'.split()],
                         cases=c16all, post=c16post, anchors=ENGINE_ANCHORS)
     # C10: history part (props.py) + engine-level repetition / fifty-move sessions
     e10c, e10p = make_prop([lambda c, pl, t: repetition_stream(c, pl, t, c.scale(25, 500)), fifty_explicit,
                             lambda c, pl, t: fifty_stream(c, pl, t, c.scale(40, 800)),
-                            lambda c, pl, t: refen_stream(c, pl, t, c.scale(25, 500))])
+                            lambda c, pl, t: refen_stream(c, pl, t, c.scale(25, 500)),
+                            lambda c, pl, t: perpetual_stream(c, pl, t, c.scale(24, 1000))])
     base10 = PROPS['C10']['cases']
     PROPS['C10']['cases'] = lambda ctx: base10(ctx) + e10c(ctx)
     PROPS['C10']['post'] = e10p
